@@ -150,6 +150,7 @@ type dest struct {
 	mu       sync.Mutex
 	calls    int
 	failAt   int
+	sticky   bool // a destination that broke stays broken: every later call fails too (a full or read-only disk)
 	fired    string
 	complete map[string]bool // entries whose file was completely written and closed before any fault
 }
@@ -158,8 +159,10 @@ func (d *dest) tick(what string) error {
 	d.mu.Lock()
 	defer d.mu.Unlock()
 	d.calls++
-	if d.failAt > 0 && d.calls == d.failAt {
-		d.fired = what
+	if d.failAt > 0 && (d.calls == d.failAt || (d.sticky && d.calls > d.failAt)) {
+		if d.fired == "" {
+			d.fired = what
+		}
 		return errDest
 	}
 	return nil
@@ -223,13 +226,15 @@ type Opener struct {
 }
 
 type Case struct {
-	Entries  []Entry  `json:"entries"`
-	Cut      int      `json:"cut"`   // block index at which the reader parks (-1: never)
-	Fault    string   `json:"fault"` // none truncate error cancel
-	Hold     string   `json:"hold,omitempty"`
-	DestFail int      `json:"dest_fail,omitempty"`
-	Openers  []Opener `json:"openers"`
-	Settle   int      `json:"settle_us"`
+	Entries  []Entry `json:"entries"`
+	Cut      int     `json:"cut"`   // block index at which the reader parks (-1: never)
+	Fault    string  `json:"fault"` // none truncate error cancel
+	Hold     string  `json:"hold,omitempty"`
+	DestFail int     `json:"dest_fail,omitempty"`
+	// DestSticky: from the failing destination call on, every destination call fails (several background writers fail at once)
+	DestSticky bool     `json:"dest_sticky,omitempty"`
+	Openers    []Opener `json:"openers"`
+	Settle     int      `json:"settle_us"`
 }
 
 type openResult struct {
@@ -264,7 +269,7 @@ func checkInner(c Case) (string, string, stats) {
 	ctx, cancel := context.WithCancel(context.Background())
 	defer cancel()
 	rd := &blockReader{data: archive, cut: c.Cut, fault: c.Fault, ctl: ctl, cancel: cancel}
-	d := &dest{inner: subj.NewMem(), ctl: ctl, holdName: c.Hold, failAt: c.DestFail}
+	d := &dest{inner: subj.NewMem(), ctl: ctl, holdName: c.Hold, failAt: c.DestFail, sticky: c.DestSticky}
 	tfs, err := htar.NewReaderFS(ctx, rd, htar.ReaderFSOptions{UnarchiveFS: d})
 	if err != nil {
 		return "C13 constructor", err.Error(), st
@@ -505,11 +510,15 @@ func TestDestFaults(t *testing.T) {
 		must(err)
 		<-tfs.Done()
 		n := dry.calls
-		rec.Step(map[string]any{"entries": es, "openers": openers, "dest-calls": n})
+		sticky := rapid.Bool().Draw(rt, "sticky")
+		rec.Step(map[string]any{"entries": es, "openers": openers, "dest-calls": n, "sticky": sticky})
 		rec.NonTrivial()
+		if sticky {
+			rec.Class("sticky-destination-failure")
+		}
 		rec.Count("dest-fault-sites", n)
 		for i := 1; i <= n; i++ {
-			c := Case{Entries: es, Cut: -1, Fault: "none", DestFail: i, Openers: openers}
+			c := Case{Entries: es, Cut: -1, Fault: "none", DestFail: i, Openers: openers, DestSticky: sticky}
 			for rep := 0; rep < 3; rep++ { // what follows a failed background write is a race inside tar: repeat
 				if sig, msg, _ := check(c); sig != "" {
 					rec.Step(c)
